@@ -18,9 +18,9 @@ CONFIGS = {
     'T9':   cfg(N=2, HEAD=1, PAYLOAD=1, L=2, CTX=3, feats=('HIST',)),
     # plans
     'P1':   cfg(N=3, HEAD=1, CAP=2, L=2, CTX=1, feats=('PLANS', 'LOG')),
-    'P2':   cfg(N=2, HEAD=1, MANUAL=1, PAYLOAD=4, CAP=3, L=2, CTX=1, feats=('PLANS', 'LOG', 'HIST')),
+    'P2':   cfg(N=2, HEAD=1, MANUAL=1, PAYLOAD=4, CAP=2, L=2, CTX=1, feats=('PLANS', 'LOG', 'HIST')),
     'P3':   cfg(N=2, HEAD=0, CAP=1, L=1, CTX=0, feats=('PLANS',)),
-    'P4':   cfg(N=3, HEAD=0, PAYLOAD=16, CAP=0, L=2, CTX=2, feats=('PLANS', 'LOG')),
+    'P4':   cfg(N=2, HEAD=0, PAYLOAD=16, CAP=0, L=2, CTX=2, feats=('PLANS', 'LOG')),
     'P5':   cfg(N=2, HEAD=1, CAP=2, L=2, CTX=1, feats=('PLANS', 'LOG')),
     'P5h':  cfg(N=2, HEAD=1, CAP=2, L=2, CTX=1, feats=('PLANS', 'LOG', 'HIST', 'SER')),
     'P6':   cfg(N=2, HEAD=1, CAP=3, L=1, CTX=0, feats=('PLANS',)),
@@ -115,7 +115,7 @@ def registered():
 
 # --------------------------------------------------------------------------- generic fsmx-driven check
 def tier_budget(tier):
-    return 240.0 if tier == 'quick' else 1500.0
+    return 240.0 if tier == 'quick' else 2400.0
 
 def run_specs(V, specs, tier, budget=None):
     """build all harnesses in parallel, then run the explorer for every spec (x header variant x prefill)"""
@@ -160,15 +160,18 @@ def run_specs(V, specs, tier, budget=None):
     with ThreadPoolExecutor(max_workers=NCPU) as ex:
         results = list(ex.map(one, items))
     for sp, h, outs in results:
-        digests = {}
+        digests = {}; incomplete = False
         for pf, run in outs:
             rs = dict(sp); rs['header'] = h
             V.add_fsmx(run, sp['cfg'], CONFIGS[sp['cfg']], rs)
             if sp['variant'] != 'plain' and (run['result'] is None or run['rc'] not in (0, 1) or 'VX-INFLIGHT' in run['stderr'] or 'runtime error' in run['stderr']):
                 sanitizer_report(V, run, sp, h)
             if run['result'] is not None and pf is not None:
+                if not run['result']['exhaustive']: incomplete = True      # a run cut short by its deadline cannot be compared
                 digests[pf] = (run['result']['digest'], run['result']['states'], run['result']['transitions'])
-        if len(set(digests.values())) > 1:
+        if incomplete:
+            V.caps.append('%s: prefill differential skipped, a run did not complete' % sp['cfg'])
+        elif len(set(digests.values())) > 1:
             V.add_violation('behaviour-depends-on-storage-prefill', 'the same exploration of %s gives different state graphs for different byte patterns pre-filling the instance storage: %s' % (sp['cfg'], {('0x%02x' % k): v for k, v in digests.items()}),
                             dict(kind='prefill-differential', config=sp['cfg'], defs=CONFIGS[sp['cfg']], prefills=list(digests.keys()), header=h))
         elif len(digests) > 1:
